@@ -787,6 +787,10 @@ class Effects(object):
     R.extend(r2)
     if isinstance(n.op, ast.Mod) and (l == 'TR' or isinstance(n.left, ast.Constant)):
       tpl = n.left.value if isinstance(n.left, ast.Constant) and isinstance(n.left.value, str) else None
+      if tpl is None:
+        from .symeval import class_constant
+        cv = class_constant(n.left, fn)
+        tpl = cv if isinstance(cv, str) else None
       args = list(r[1:]) if isinstance(r, tuple) else [r]
       if tpl is not None:
         import re
